@@ -508,7 +508,7 @@ func constInt(c *ssa.Const) (int64, bool) {
 
 func (a *Analysis) killWhere(st State, pred func(at *Atom) bool) State {
 	for i, at := range a.Space.Atoms {
-		if at.Kind == Ghost || at.History {
+		if at.Kind == Ghost || at.History || at.skipKill {
 			continue
 		}
 		if pred(at) {
@@ -520,7 +520,7 @@ func (a *Analysis) killWhere(st State, pred func(at *Atom) bool) State {
 
 func (a *Analysis) killReg(st State, v ssa.Value) State {
 	for i, at := range a.Space.Atoms {
-		if at.Kind == Ghost {
+		if at.Kind == Ghost || at.skipKill {
 			continue
 		}
 		if at.dep.Regs[v] {
@@ -727,13 +727,50 @@ func (a *Analysis) store(f *Frame, addr, val ssa.Value, st State) State {
 	} else {
 		loc = "*" + loc
 	}
+	// loc := loc + k (k > 0): orderings that mention loc directly shift instead of being forgotten
+	var shifted []*Atom
+	if isIncrementOf(a.P, f, val, loc) {
+		pre := st
+		for i, atom := range sp.Atoms {
+			if atom.Kind != Cmp || atom.History || atom.A == atom.B {
+				continue
+			}
+			switch {
+			case atom.A == loc && !containsTerm(atom.B, loc):
+				pre = sp.Map(pre, i, func(pt, old int) uint32 {
+					if old == LT {
+						return 1<<LT | 1<<EQ
+					}
+					return 1 << GT
+				})
+				shifted = append(shifted, atom)
+			case atom.B == loc && !containsTerm(atom.A, loc):
+				pre = sp.Map(pre, i, func(pt, old int) uint32 {
+					if old == GT {
+						return 1<<GT | 1<<EQ
+					}
+					return 1 << LT
+				})
+				shifted = append(shifted, atom)
+			}
+		}
+		st = Intersect(pre, sp.consistent)
+		for _, atom := range shifted {
+			atom.skipKill = true
+		}
+		defer func() {
+			for _, atom := range shifted {
+				atom.skipKill = false
+			}
+		}()
+	}
 	var fld *types.Var
 	switch x := addr.(type) {
 	case *ssa.FieldAddr:
 		fld = fieldOf(x.X.Type(), x.Field)
 		if al := rootAlloc(x.X); al != nil && !al.Heap {
-			// field of a local struct that never escapes: it cannot alias node state
-			st = a.killReg(st, al)
+			// field of a local struct that never escapes: it cannot alias node state, and only terms that
+			// mention this very field path change (killLoc below)
 			fld = nil
 		} else {
 			st = a.killField(st, fld)
@@ -827,6 +864,26 @@ func (a *Analysis) store(f *Frame, addr, val ssa.Value, st State) State {
 		}
 	}
 	return st
+}
+
+// isIncrementOf reports whether val is (load of loc) + k with a positive integer constant k.
+func isIncrementOf(p *Program, f *Frame, val ssa.Value, loc string) bool {
+	b, ok := val.(*ssa.BinOp)
+	if !ok || b.Op != token.ADD {
+		return false
+	}
+	pos := func(v ssa.Value) bool {
+		c, ok := v.(*ssa.Const)
+		if !ok {
+			return false
+		}
+		k, ok := constInt(c)
+		return ok && k > 0
+	}
+	if pos(b.Y) && p.Canon(f, b.X).S == loc {
+		return true
+	}
+	return pos(b.X) && p.Canon(f, b.Y).S == loc
 }
 
 // isFreshObject reports whether v is the address of an object allocated by this instruction.
